@@ -172,7 +172,16 @@ func runC27(c *core.Ctx) {
 	var mapper *ssa.Function
 	for _, h := range hs {
 		if h.ConstName == "TypeVoteCommission" {
-			mapper = c.Method(h.Type, "price")
+			// the method that maps the voted table into a commission.Price (by result type)
+			ms := c.Prog.MethodSets.MethodSet(types.NewPointer(h.Type))
+			for i := 0; i < ms.Len(); i++ {
+				if fn := c.Prog.FuncValue(ms.At(i).Obj().(*types.Func)); fn != nil && fn.Synthetic == "" && fn.Signature.Results().Len() == 1 && strings.HasSuffix(fn.Signature.Results().At(0).Type().String(), "commission.Price") {
+					mapper = fn
+				}
+			}
+			if mapper == nil {
+				mapper = c.Method(h.Type, "price")
+			}
 		}
 	}
 	if imp == nil || exp == nil || end == nil || mapper == nil {
